@@ -237,6 +237,8 @@ pub fn run(args: &Args) -> ! {
         // that selects a special mode
         vec!["--version", "--no-such-flag"], vec!["-V", "-E", "bogus", "x"], vec!["-h", "--max-count=abc", "x"], vec!["--help", "--no-such-flag"],
         vec!["--no-such-flag", "--version"], vec!["--pcre2-version", "--no-such-flag"], vec!["--type-list", "--max-count", "x"], vec!["--files", "--max-depth", "x"],
+        // ... and whether or not a match is possible at all
+        vec!["-m0", "("], vec!["--max-count", "0", "a{2,1}", "."], vec!["-m0", "-e", "ok", "-e", "[z-a]"],
         // the same under output modes that could print something first
         vec!["--files", "-g", "["], vec!["--files", "--pre-glob", "["], vec!["-c", "--pre-glob", "[", "needle"], vec!["--json", "-t", "nosuchtype", "needle"], vec!["-l", "--iglob", "{a", "needle"],
     ];
@@ -545,7 +547,7 @@ pub fn run(args: &Args) -> ! {
     ev.set("faults_by_kind", json!(total.by_kind));
     ev.set(
         "rule",
-        "real rg binary on 3 trees (mixed / all files match / none matches) x 6 modes (standard, -c, -l, -q, --files, --json) x -j1 and -j2 (the latter under the replay scheduler's default schedule so that 'the k-th call' is well defined): the run is repeated under `strace -e inject=<syscall>:error=<E>:when=k` for EVERY k up to the number of such calls in the fault-free run, for openat->EACCES, openat->ENOENT, read->EIO, getdents64->EACCES, write->EPIPE; the injected call's path is recovered from the strace log (faults on start-up files are skipped). Decision table: a fault on a tree path => a diagnostic naming it on stderr, exit status 2 (0 allowed for -q with a match), the other files' results identical to the fault-free run; EPIPE on stdout => status 0, empty stderr, no further file opened (promptly). Plus: 58 invalid argument sets (regex, pattern file, engine, globs for -g / --iglob / --pre-glob with and without a preprocessor, types, encoding, numbers, sizes, sort / colour / hyperlink choices, unknown flags, under --files / -c / -l / --json) => status 2, a diagnostic and empty stdout; real faults as uid 65534 (mode-000 file and directory, dangling symlinks, missing paths, -q, -q --stats, -q --json and --no-messages variants); the stdout consumer closing after k bytes for every k up to 120 (400) and around every buffer boundary, in 11 variants (-j1/-j2, --line-buffered, --files, -c, --json, --pre cat at -j1 and -j2, -z with gzip files, transcoding) => status 0 and no diagnostic.",
+        "real rg binary on 3 trees (mixed / all files match / none matches) x 6 modes (standard, -c, -l, -q, --files, --json) x -j1 and -j2 (the latter under the replay scheduler's default schedule so that 'the k-th call' is well defined): the run is repeated under `strace -e inject=<syscall>:error=<E>:when=k` for EVERY k up to the number of such calls in the fault-free run, for openat->EACCES, openat->ENOENT, read->EIO, getdents64->EACCES, write->EPIPE; the injected call's path is recovered from the strace log (faults on start-up files are skipped). Decision table: a fault on a tree path => a diagnostic naming it on stderr, exit status 2 (0 allowed for -q with a match), the other files' results identical to the fault-free run; EPIPE on stdout => status 0, empty stderr, no further file opened (promptly). Plus: 61 invalid argument sets (regex, pattern file, engine, globs for -g / --iglob / --pre-glob with and without a preprocessor, types, encoding, numbers, sizes, sort / colour / hyperlink choices, unknown flags, under --files / -c / -l / --json) => status 2, a diagnostic and empty stdout; real faults as uid 65534 (mode-000 file and directory, dangling symlinks, missing paths, -q, -q --stats, -q --json and --no-messages variants); the stdout consumer closing after k bytes for every k up to 120 (400) and around every buffer boundary, in 11 variants (-j1/-j2, --line-buffered, --files, -c, --json, --pre cat at -j1 and -j2, -z with gzip files, transcoding) => status 0 and no diagnostic.",
     );
     ev.set("samples", json!([{"tree": "mixed", "mode": "standard", "fault": "openat:error=EACCES:when=17 (d/c.txt)"}, {"pipe": "rg -j1 --line-buffered needle, consumer closes after 37 bytes"}]));
     ev.assume("strace's fault injector; setpriv to drop root so that mode 000 is effective");
